@@ -11,15 +11,20 @@
 (* input only after the previous report was received (what the harness     *)
 (* does); then no report is lost (NoDrop).  FALSE is a sensitivity         *)
 (* configuration: TLC must find the dropped report.                        *)
+(* TLS = TRUE: an accepted connection first performs the TLS handshake, in  *)
+(* its own serve goroutine (HsInServe = TRUE, as conn.serve does); a peer   *)
+(* may complete it, fail it (the connection is closed) or stall for ever.   *)
+(* HsInServe = FALSE is a sensitivity configuration: the handshake done by  *)
+(* the accept loop lets one stalled peer stop all acceptance.               *)
 (* Sensitivity switches: Recover = FALSE (a handler panic kills the        *)
 (* process), RetryTemp = FALSE (Serve returns on a temporary accept error).*)
 (***************************************************************************)
 EXTENDS Integers, Sequences, FiniteSets, TLC
-CONSTANTS NConns, MaxMsgs, MaxTempErrs, Recover, RetryTemp, SequencedBad
+CONSTANTS NConns, MaxMsgs, MaxTempErrs, Recover, RetryTemp, SequencedBad, TLS, HsInServe
 VARIABLES acceptq,   \* what the listener will hand out: seq of "conn" | "temp"
           serving,   \* FALSE once Serve has returned
           alive,     \* process alive
-          st,        \* conn -> "pending" | "open" | "closed"
+          st,        \* conn -> "pending" | "hs" (TLS handshake in progress) | "open" | "closed"
           sent,      \* conn -> messages sent by the peer so far (faults included)
           answered,  \* conn -> number of requests answered
           faulted,   \* conn -> fault kind or "none"
@@ -36,9 +41,11 @@ Init == /\ acceptq \in Queues /\ serving = TRUE /\ alive = TRUE
         /\ st = [c \in Conns |-> "pending"] /\ sent = [c \in Conns |-> 0] /\ answered = [c \in Conns |-> 0]
         /\ faulted = [c \in Conns |-> "none"] /\ reports = 0 /\ slot = 0 /\ received = 0 /\ dropped = 0
 NextPending == CHOOSE c \in Conns : st[c] = "pending" /\ \A d \in Conns : st[d] = "pending" => c <= d
-Accept == /\ serving /\ alive /\ acceptq # <<>>
+\* the accept loop is busy with a handshake of its own when it, not the serve goroutine, performs it
+AcceptLoopFree == HsInServe \/ \A c \in Conns : st[c] # "hs"
+Accept == /\ serving /\ alive /\ acceptq # <<>> /\ AcceptLoopFree
           /\ acceptq' = Tail(acceptq)
-          /\ IF Head(acceptq) = "conn" THEN st' = [st EXCEPT ![NextPending] = "open"] /\ UNCHANGED serving
+          /\ IF Head(acceptq) = "conn" THEN st' = [st EXCEPT ![NextPending] = IF TLS THEN "hs" ELSE "open"] /\ UNCHANGED serving
              ELSE UNCHANGED st /\ serving' = RetryTemp
           /\ UNCHANGED <<alive, sent, answered, faulted, rep>>
 Request(c) == /\ alive /\ st[c] = "open" /\ sent[c] < MaxMsgs
@@ -53,10 +60,18 @@ Fault(c, k) == /\ alive /\ st[c] = "open" /\ sent[c] < MaxMsgs /\ faulted[c] = "
                                      /\ IF slot = 0 THEN slot' = 1 /\ UNCHANGED dropped ELSE dropped' = dropped + 1 /\ UNCHANGED slot
                   ELSE UNCHANGED rep
                /\ UNCHANGED <<acceptq, serving, answered>>
+\* TLS handshake outcomes; a stalled peer is simply one for which neither ever happens
+HsDone(c) == /\ alive /\ st[c] = "hs" /\ faulted[c] = "none" /\ st' = [st EXCEPT ![c] = "open"]
+             /\ UNCHANGED <<acceptq, serving, alive, sent, answered, faulted, rep>>
+HsFail(c) == /\ alive /\ st[c] = "hs" /\ faulted[c] = "none"
+             /\ st' = [st EXCEPT ![c] = "closed"] /\ faulted' = [faulted EXCEPT ![c] = "tlsbad"]
+             /\ UNCHANGED <<acceptq, serving, alive, sent, answered, rep>>
+HsStall(c) == /\ alive /\ st[c] = "hs" /\ faulted[c] = "none" /\ faulted' = [faulted EXCEPT ![c] = "tlsstall"]
+              /\ UNCHANGED <<acceptq, serving, alive, st, sent, answered, rep>>
 \* the application receives from ErrorReports()
 Consume == /\ slot = 1 /\ slot' = 0 /\ received' = received + 1
            /\ UNCHANGED <<acceptq, serving, alive, st, sent, answered, faulted, reports, dropped>>
-Next == Accept \/ Consume \/ \E c \in Conns : Request(c) \/ \E k \in {"panic", "bad", "eof"} : Fault(c, k)
+Next == Accept \/ Consume \/ \E c \in Conns : Request(c) \/ HsDone(c) \/ HsFail(c) \/ HsStall(c) \/ \E k \in {"panic", "bad", "eof"} : Fault(c, k)
 Spec == Init /\ [][Next]_vars
 
 \* IsolationObs at design level
@@ -66,4 +81,6 @@ UndecodableReported == reports = Cardinality({c \in Conns : faulted[c] = "bad"})
 ReportsAccounted == reports = received + slot + dropped
 NoDrop == dropped = 0
 KeepsAccepting == (acceptq # <<>>) => (serving /\ alive)
+\* whatever the connections accepted so far are doing, the next one can be accepted
+AcceptNotBlocked == (acceptq # <<>> /\ serving /\ alive) => ENABLED Accept
 =============================================================================
